@@ -117,6 +117,14 @@ Status(e, balls, a, b) ==
       v == <<YN(SelY(e, a, b)), YN(DomY(e, a, b)), YN(A[b].res \notin balls[A[a].res]), CutV(e, a, b), ForceV(e, a, b)>>
   IN [f |-> {c \in 1..5 : v[c] = "n"}, b |-> {c \in 1..5 : v[c] = "b"}]
 
+\* "bond": every criterion holds; "free": none fails, some within its band; a criterion name: it alone fails and nothing is within a
+\* band; "multi" otherwise.  (An unselected pair beyond the cut-off is "multi" without looking further: that is most pairs.)
+ClassOf(e, balls, a, b) ==
+  IF ~SelY(e, a, b) /\ CutV(e, a, b) = "n" THEN "multi"
+  ELSE LET st == Status(e, balls, a, b) IN
+       IF st.f = {} THEN (IF st.b = {} THEN "bond" ELSE "free")
+       ELSE IF Cardinality(st.f) = 1 /\ st.b = {} THEN Crit[CHOOSE c \in st.f : TRUE] ELSE "multi"
+
 \* pairs of particles of one written molecule that have coordinates
 Pairs(e) == LET A == e.f.atoms
             IN {p \in (DOMAIN A) \X (DOMAIN A) : p[1] < p[2] /\ A[p[1]].mol = A[p[2]].mol /\ ~A[p[1]].nan /\ ~A[p[2]].nan}
@@ -140,77 +148,80 @@ ConstOK(e, b) == b.k >= KLo(e, b.a, b.b) - 1 /\ b.k <= KHi(e, b.a, b.b) + 1
 NoAt == <<0, 0>>
 R(v, at) == [v |-> v, at |-> at]
 
-JudgeNetwork(e) ==
+\* cls: [Pairs(e) -> class], nan: NanMols(e)
+JudgeNetwork(e, balls, cls, nan) ==
   LET A     == e.f.atoms
       bs    == e.f.bonds
-      balls == ResBalls(e)
-      P     == {p \in Pairs(e) : A[p[1]].mol \notin NanMols(e)}
-      st    == [p \in P |-> Status(e, balls, p[1], p[2])]
+      P     == DOMAIN cls
       got   == PairSet(bs)
-      wrong == {p \in got : p \notin P \/ st[p].f # {}}
-      lost  == {p \in P : st[p].f = {} /\ st[p].b = {} /\ p \notin got}
+      wrong == {p \in got : p \notin P \/ A[p[1]].mol \in nan \/ cls[p] \notin {"bond", "free"}}
+      lost  == {p \in P : cls[p] = "bond" /\ p \notin got /\ A[p[1]].mol \notin nan}
       badl  == {i \in DOMAIN bs : ~LenOK(e, bs[i])}
       badk  == {i \in DOMAIN bs : ~ConstOK(e, bs[i])}
   IN IF \E i \in DOMAIN bs : bs[i].a \notin DOMAIN A \/ bs[i].b \notin DOMAIN A \/ bs[i].a = bs[i].b
        THEN R("bond-to-itself-or-unknown-particle", NoAt)
-     ELSE IF \E i, j \in DOMAIN bs : i < j /\ Norm(bs[i]) = Norm(bs[j])
+     ELSE IF Cardinality(got) # Len(bs)
        THEN R("pair-bonded-more-than-once", LET i == CHOOSE x \in DOMAIN bs : \E j \in DOMAIN bs : x < j /\ Norm(bs[x]) = Norm(bs[j]) IN Norm(bs[i]))
      ELSE IF wrong # {} THEN
        LET p == CHOOSE q \in wrong : TRUE IN
-       IF p \notin P THEN R("bond-in-molecule-with-undefined-coordinates", p)
-       ELSE R("bond-on-pair-failing-" \o Crit[CHOOSE c \in st[p].f : \A d \in st[p].f : c <= d], p)
+       IF p \notin P \/ A[p[1]].mol \in nan THEN R("bond-in-molecule-with-undefined-coordinates", p)
+       ELSE LET st == Status(e, balls, p[1], p[2]) IN
+            R("bond-on-pair-failing-" \o Crit[CHOOSE c \in st.f : \A d \in st.f : c <= d], p)
      ELSE IF lost # {} THEN R("qualifying-pair-without-bond", CHOOSE q \in lost : TRUE)
      ELSE IF badl # {} THEN R("length-is-not-the-distance", Norm(bs[CHOOSE i \in badl : TRUE]))
      ELSE IF badk # {} THEN R("constant-is-not-the-capped-decayed-base", Norm(bs[CHOOSE i \in badk : TRUE]))
      ELSE R("ok", NoAt)
 
-Judge(e) ==
+Judge(e, balls, cls, nan) ==
   IF e.rc # 0 THEN R("run-failed", NoAt)
   ELSE IF ~e.f.ok THEN R("files-missing", NoAt)
   ELSE IF e.f.topsizes # e.f.tersizes THEN R("structure-and-topology-disagree-on-the-molecules", NoAt)
   ELSE IF e.f.strays > 0 THEN R("rubber-band-lines-outside-the-bonds-section-or-conditional", NoAt)
   ELSE IF ~Requested(e.o) THEN (IF e.f.bonds # <<>> THEN R("network-without-request", NoAt) ELSE R("ok", NoAt))
   ELSE IF ~MoleculesOKFast(e) THEN R("molecules-are-not-the-bridged-or-merged-chain-sets", NoAt)
-  ELSE IF NanMols(e) # {} /\ ~e.nanwarn THEN R("undefined-coordinates-without-warning", NoAt)
-  ELSE JudgeNetwork(e)
+  ELSE IF nan # {} /\ ~e.nanwarn THEN R("undefined-coordinates-without-warning", NoAt)
+  ELSE JudgeNetwork(e, balls, cls, nan)
 
 (* ------------------------------------- classes, for the vacuity report of the driver ------------------------------------- *)
-Classes(e) ==
-  IF e.rc # 0 \/ ~e.f.ok THEN [bond |-> 0, free |-> 0, sel |-> 0, dom |-> 0, sep |-> 0, cut |-> 0, force |-> 0, multi |-> 0,
-                               shortcut |-> 0, acrossgap |-> 0, interchain |-> 0, capped |-> 0, decayed |-> 0, hinge |-> 0,
-                               nanmols |-> 0, mols |-> 0]
-  ELSE
+NoClasses == [bond |-> 0, free |-> 0, sel |-> 0, dom |-> 0, sep |-> 0, cut |-> 0, force |-> 0, multi |-> 0,
+              shortcut |-> 0, acrossgap |-> 0, interchain |-> 0, capped |-> 0, decayed |-> 0, hinge |-> 0, nanmols |-> 0, mols |-> 0]
+Classes(e, cls, nan) ==
   LET A     == e.f.atoms
-      balls == ResBalls(e)
-      P     == Pairs(e)
-      st    == [p \in P |-> Status(e, balls, p[1], p[2])]
-      cls   == [p \in P |-> IF st[p].f = {} THEN (IF st[p].b = {} THEN "bond" ELSE "free")
-                            ELSE IF Cardinality(st[p].f) = 1 /\ st[p].b = {} THEN Crit[CHOOSE c \in st[p].f : TRUE] ELSE "multi"]
-      N(c)  == Cardinality({p \in P : cls[p] = c})
-      samechain(p) == A[p[1]].chain = A[p[2]].chain /\ A[p[1]].seg = A[p[2]].seg
+      P     == DOMAIN cls
+      Of(c) == {p \in P : cls[p] = c}
+      B     == Of("bond")
       inreg(v) == {i \in DOMAIN e.o.regions : InRegion(e.o.regions[i], v)}
-  IN [bond |-> N("bond"), free |-> N("free"), sel |-> N("sel"), dom |-> N("dom"), sep |-> N("sep"), cut |-> N("cut"),
-      force |-> N("force"), multi |-> N("multi"),
+  IN [bond |-> Cardinality(B), free |-> Cardinality(Of("free")), sel |-> Cardinality(Of("sel")), dom |-> Cardinality(Of("dom")),
+      sep |-> Cardinality(Of("sep")), cut |-> Cardinality(Of("cut")), force |-> Cardinality(Of("force")), multi |-> Cardinality(Of("multi")),
       \* excluded by the separation alone although the input numbers are further apart than rmd (ring closed by a bridge)
-      shortcut |-> Cardinality({p \in P : cls[p] = "sep" /\ Abs(A[p[1]].old - A[p[2]].old) > e.o.rmd /\ A[p[1]].res # A[p[2]].res}),
+      shortcut |-> Cardinality({p \in Of("sep") : Abs(A[p[1]].old - A[p[2]].old) > e.o.rmd /\ A[p[1]].res # A[p[2]].res}),
       \* bonded although the input numbers are within rmd of each other (chain break, numbering restarted, other chain)
-      acrossgap |-> Cardinality({p \in P : cls[p] = "bond" /\ Abs(A[p[1]].old - A[p[2]].old) <= e.o.rmd}),
+      acrossgap |-> Cardinality({p \in B : Abs(A[p[1]].old - A[p[2]].old) <= e.o.rmd}),
       \* bonded pairs of different chains of one molecule
-      interchain |-> Cardinality({p \in P : cls[p] = "bond" /\ A[p[1]].chain # A[p[2]].chain}),
+      interchain |-> Cardinality({p \in B : A[p[1]].chain # A[p[2]].chain}),
       \* bonded pairs whose constant is the cap / is strictly below the base for every compatible distance
-      capped  |-> Cardinality({p \in P : cls[p] = "bond" /\ e.o.decay /\ e.f.klo[p[1]][p[2]] >= e.o.base}),
-      decayed |-> Cardinality({p \in P : cls[p] = "bond" /\ e.o.decay /\ e.f.khi[p[1]][p[2]] < e.o.base}),
+      capped  |-> IF e.o.decay THEN Cardinality({p \in B : e.f.klo[p[1]][p[2]] >= e.o.base}) ELSE 0,
+      decayed |-> IF e.o.decay THEN Cardinality({p \in B : e.f.khi[p[1]][p[2]] < e.o.base}) ELSE 0,
       \* bonded pairs that share a region although one of the two beads lies in several regions
-      hinge |-> Cardinality({p \in P : cls[p] = "bond" /\ e.o.unit = "regions"
-                                        /\ (Cardinality(inreg(A[p[1]].old)) > 1 \/ Cardinality(inreg(A[p[2]].old)) > 1)}),
-      nanmols |-> Cardinality(NanMols(e)),
+      hinge |-> IF e.o.unit = "regions"
+                THEN Cardinality({p \in B : Cardinality(inreg(A[p[1]].old)) > 1 \/ Cardinality(inreg(A[p[2]].old)) > 1}) ELSE 0,
+      nanmols |-> Cardinality(nan),
       mols |-> Cardinality({A[a].mol : a \in DOMAIN A})]
+
+Outcome(e) ==
+  IF e.rc # 0 \/ ~e.f.ok \/ e.f.topsizes # e.f.tersizes
+  THEN LET j == Judge(e, <<>>, <<>>, {}) IN [v |-> j.v, at |-> j.at, cls |-> NoClasses]
+  ELSE LET balls == ResBalls(e)
+           cls   == [p \in Pairs(e) |-> ClassOf(e, balls, p[1], p[2])]
+           nan   == NanMols(e)
+           j     == Judge(e, balls, cls, nan)
+       IN [v |-> j.v, at |-> j.at, cls |-> Classes(e, cls, nan)]
 
 VARIABLES tid, verdict
 vars == <<tid, verdict>>
 Init == tid \in 1..Len(Batch) /\ verdict = [v |-> "pending"]
 Eval == /\ verdict.v = "pending"
-        /\ verdict' = LET j == Judge(Batch[tid]) IN [v |-> j.v, at |-> j.at, cls |-> Classes(Batch[tid])]
+        /\ verdict' = Outcome(Batch[tid])
         /\ UNCHANGED tid
 Spec == Init /\ [][Eval]_vars
 =============================================================================
